@@ -16,6 +16,7 @@ import (
 	"fmt"
 	"math/rand"
 	"net/netip"
+	"runtime/debug"
 	"strings"
 
 	"github.com/els0r/goProbe/v4/pkg/goDB/conditions"
@@ -75,35 +76,59 @@ func show(s string) string {
 	return fmt.Sprintf("%q", s)
 }
 
-// outcome of preparing a text several times.
+// outcome of preparing a text several times. SanitizeUserInput applies its rewrites in the random
+// iteration order of a Go map, so the calls may disagree; the outcome reported is the least
+// favourable one for the clause being checked and the disagreement is kept as information.
 type outcome struct {
 	accepted  bool
 	canonical string
 	err       error
 	panicMsg  string
-	unstable  string // description if repeated preparation disagreed
+	unstable  string   // description if repeated preparation disagreed ("" = all calls agreed)
+	others    []string // further canonical strings seen in accepted calls
 }
 
-func prepareN(c *fw.Case, text string, n int) outcome {
+// prepareN prepares text n times. A panic in any call wins; otherwise, with preferReject, a rejection
+// in any call wins (documented spellings must always be accepted), without it an acceptance wins
+// (whatever can be accepted must have a sound canonical form).
+func prepareN(c *fw.Case, text string, n int, preferReject bool) outcome {
 	var o outcome
 	for i := 0; i < n; i++ {
 		st, err, pm := condx.Prepare(text)
 		c.Count("repeat_prepare_calls", 1)
 		cur := outcome{accepted: err == nil && pm == "", err: err, panicMsg: pm}
-		if st != nil {
+		if st != nil && cur.accepted {
 			cur.canonical = st.Condition
 		}
 		if i == 0 {
 			o = cur
 			continue
 		}
-		if cur.accepted != o.accepted || cur.canonical != o.canonical || (cur.panicMsg == "") != (o.panicMsg == "") {
-			o.unstable = fmt.Sprintf("call 1: accepted=%v canonical=%q err=%v; call %d: accepted=%v canonical=%q err=%v", o.accepted, o.canonical, o.err, i+1, cur.accepted, cur.canonical, cur.err)
-			if cur.panicMsg != "" {
-				o.panicMsg = cur.panicMsg
-			}
-			return o
+		if cur.accepted == o.accepted && cur.canonical == o.canonical && (cur.panicMsg == "") == (o.panicMsg == "") {
+			continue
 		}
+		desc := fmt.Sprintf("call 1: accepted=%v canonical=%q err=%v; call %d: accepted=%v canonical=%q err=%v", o.accepted, o.canonical, o.err, i+1, cur.accepted, cur.canonical, cur.err)
+		if o.unstable != "" {
+			desc = o.unstable
+		}
+		c.Count("prepare_outcome_unstable", 1)
+		better := false
+		switch {
+		case o.panicMsg != "":
+		case cur.panicMsg != "":
+			better = true
+		case cur.accepted && o.accepted:
+			o.others = append(o.others, cur.canonical)
+		case preferReject:
+			better = !cur.accepted
+		default:
+			better = cur.accepted
+		}
+		if better {
+			cur.others = o.others
+			o = cur
+		}
+		o.unstable = desc
 	}
 	return o
 }
@@ -178,16 +203,17 @@ func (d *dirSpec) wrap(r *rand.Rand, body string, ws func() string) string {
 	if condx.IsWord(and) {
 		and = ws() + and + ws()
 	}
+	// blanks inside the parentheses: a body starting with the word "not" must stay enclosed by whitespace
 	if d.left {
-		return clause + and + "(" + body + ")"
+		return clause + and + "( " + body + " )"
 	}
-	return "(" + body + ")" + and + clause
+	return "( " + body + " )" + and + clause
 }
 
 func grammarOne(c *fw.Case, st *state, r *rand.Rand, i int) {
 	cond := gen.RandCond(r, gen.CondOpts{MaxDepth: 1 + r.Intn(4), Sugar: true})
 	condx.FixProtoNames(cond)
-	so := condx.StyleOpts{WordProb: 0.6, OptionalProb: 0.08, Whitespace: true, ForceProb: 0.3, AltBrackets: true}
+	so := condx.StyleOpts{WordProb: 0.6, OptionalProb: 0.08, Whitespace: true, ForceProb: 0.3, AltBrackets: true, UpperProto: true}
 	if i%8 == 0 { // pure base symbols, only whitespace / bracket variation
 		so.WordProb = 0
 	}
@@ -245,17 +271,27 @@ func grammarOne(c *fw.Case, st *state, r *rand.Rand, i int) {
 	// evaluate judges one rendering; returns a failure class ("" = fine) and a description
 	judge := func(text string, optional bool) (class, detail string) {
 		c.Note("Prepare(%s)", show(text))
-		o := prepareN(c, text, 3)
+		o := prepareN(c, text, 3, true)
 		switch {
 		case o.panicMsg != "":
 			return "prepare_panic", fmt.Sprintf("Prepare(%s) panicked: %s", show(text), o.panicMsg)
-		case o.unstable != "":
-			return "prepare_unstable", fmt.Sprintf("repeated Prepare(%s) disagree: %s", show(text), o.unstable)
 		case !o.accepted:
 			if optional {
 				return "", ""
 			}
-			return "documented_spelling_rejected", fmt.Sprintf("Prepare(%s) rejected: %v\n(symbolic equivalent %q is accepted)", show(text), o.err, refText)
+			return "documented_spelling_rejected", fmt.Sprintf("Prepare(%s) rejected: %v %s\n(symbolic equivalent %q is accepted)", show(text), o.err, o.unstable, refText)
+		}
+		for _, alt := range o.others {
+			// another call produced another canonical string: it must be as good as the first
+			if an, _, aerr, apm := condx.Parse(alt); aerr != nil || apm != "" || an == nil {
+				return "canonical_rejected", fmt.Sprintf("Prepare(%s) accepted, but one of its canonical forms, %q, fails in ParseAndInstrument: err=%v panic=%s", show(text), alt, aerr, condx.FirstLine(apm))
+			} else if at, ap := truth(an, pool); true {
+				for i, f := range pool {
+					if refPanics[i] == "" && (ap[i] != "" || at[i] != refTruth[i]) {
+						return "spelling_changes_meaning", fmt.Sprintf("text %s (one of its canonical forms: %q) evaluates to %v (panic %q) on flow %s, the symbolic form %q to %v", show(text), alt, at[i], condx.FirstLine(ap[i]), f.KeyString(), refText, refTruth[i])
+					}
+				}
+			}
 		}
 		n, vf, err, pm := condx.Parse(o.canonical)
 		if err != nil || pm != "" || n == nil {
@@ -277,23 +313,23 @@ func grammarOne(c *fw.Case, st *state, r *rand.Rand, i int) {
 			return "direction_filter_differs", fmt.Sprintf("text %s (canonical %q): split-off direction filter %s, symbolic form %q gives %s", show(text), o.canonical, fs, refText, wantFilter)
 		}
 		// canonicalising again changes nothing
-		o2 := prepareN(c, o.canonical, 2)
+		o2 := prepareN(c, o.canonical, 2, true)
 		c.Count("canonical_idempotence_checked", 1)
 		switch {
 		case o2.panicMsg != "":
 			return "prepare_panic", fmt.Sprintf("Prepare(canonical %q) panicked: %s", o.canonical, o2.panicMsg)
 		case !o2.accepted:
 			return "canonical_not_idempotent", fmt.Sprintf("canonical form %q of %s is rejected when prepared again: %v", o.canonical, show(text), o2.err)
-		case o2.canonical != o.canonical || o2.unstable != "":
-			return "canonical_not_idempotent", fmt.Sprintf("canonical form %q of %s becomes %q when prepared again %s", o.canonical, show(text), o2.canonical, o2.unstable)
+		case o2.canonical != o.canonical || len(o2.others) > 0:
+			return "canonical_not_idempotent", fmt.Sprintf("canonical form %q of %s becomes %q when prepared again %s", o.canonical, show(text), append(o2.others, o2.canonical), o2.unstable)
 		}
 		return "", ""
 	}
 
 	class, detail := judge(text, rd.Optional)
 	if class == "" {
-		o, _, _ := condx.Prepare(text)
-		if o != nil {
+		o, oerr, _ := condx.Prepare(text)
+		if o != nil && oerr == nil {
 			c.Count("grammar_accepted", 1)
 		}
 		c.Count("grammar_truth_tables", 1)
@@ -325,7 +361,7 @@ func grammarOne(c *fw.Case, st *state, r *rand.Rand, i int) {
 		return judgeSub(c, s, t, r2.Optional, dir) == class
 	}
 	min := styled
-	if class == "documented_spelling_rejected" || class == "spelling_changes_meaning" || class == "prepare_panic" || class == "canonical_not_idempotent" || class == "canonical_rejected" {
+	if class != "symbolic_reference_rejected" {
 		// try without the direction filter first
 		dir = nil
 		if !bad(styled) {
@@ -363,12 +399,10 @@ func judgeSub(c *fw.Case, s *condx.Styled, text string, optional bool, dir *dirS
 	if rerr != nil || rpm != "" || refNode == nil {
 		return "symbolic_reference_rejected"
 	}
-	o := prepareN(c, text, 3)
+	o := prepareN(c, text, 3, true)
 	switch {
 	case o.panicMsg != "":
 		return "prepare_panic"
-	case o.unstable != "":
-		return "prepare_unstable"
 	case !o.accepted:
 		if optional {
 			return ""
@@ -396,11 +430,11 @@ func judgeSub(c *fw.Case, s *condx.Styled, text string, optional bool, dir *dirS
 	if dir != nil && filterSignature(vf) != filterSignature(refVF) {
 		return "direction_filter_differs"
 	}
-	o2 := prepareN(c, o.canonical, 2)
+	o2 := prepareN(c, o.canonical, 2, true)
 	if o2.panicMsg != "" {
 		return "prepare_panic"
 	}
-	if !o2.accepted || o2.canonical != o.canonical {
+	if !o2.accepted || o2.canonical != o.canonical || len(o2.others) > 0 {
 		return "canonical_not_idempotent"
 	}
 	return ""
@@ -639,8 +673,8 @@ func fuzz(c *fw.Case, st *state, r *rand.Rand, n int) {
 
 	for i := 0; i < n; i++ {
 		var s, kind string
-		switch k := r.Intn(20); {
-		case k < 3:
+		switch k := r.Intn(40); {
+		case k < 6:
 			kind = "random_bytes"
 			b := make([]byte, r.Intn(40))
 			r.Read(b)
@@ -650,7 +684,7 @@ func fuzz(c *fw.Case, st *state, r *rand.Rand, n int) {
 				}
 			}
 			s = string(b)
-		case k < 7:
+		case k < 14:
 			kind = "token_soup"
 			var sb strings.Builder
 			for t := 1 + r.Intn(12); t > 0; t-- {
@@ -669,54 +703,60 @@ func fuzz(c *fw.Case, st *state, r *rand.Rand, n int) {
 				sb.WriteString(pickS(r, fzSeps))
 			}
 			s = sb.String()
-		case k < 13:
+		case k < 27:
 			kind = "type_confused"
 			s = confused(r, r.Intn(4))
-		case k < 18:
+		case k < 38:
 			kind = "mutated_valid"
 			cond := gen.RandCond(r, gen.CondOpts{MaxDepth: 1 + r.Intn(3), Sugar: true})
 			condx.FixProtoNames(cond)
-			s = condx.RandStyle(r, cond, condx.StyleOpts{WordProb: 0.5, OptionalProb: 0.2, Whitespace: true, ForceProb: 0.3, AltBrackets: true}).Render().Text
+			s = condx.RandStyle(r, cond, condx.StyleOpts{WordProb: 0.5, OptionalProb: 0.2, Whitespace: true, ForceProb: 0.3, AltBrackets: true, UpperProto: true}).Render().Text
 			if r.Intn(8) != 0 {
 				s = mutate(r, s)
 			}
-		case k < 19:
+		case k < 39:
 			kind = "deep_nesting"
 			s = nested(r, []int{50, 255, 511, 512, 513, 600, 2000, 5000}[r.Intn(8)])
 			c.Count("fuzz_deep_nesting", 1)
 		default:
 			kind = "long_chain"
-			s = chain(r, []int{100, 511, 512, 513, 3000}[r.Intn(5)])
+			s = chain(r, []int{100, 511, 512, 513, 1500}[r.Intn(5)])
 			c.Count("fuzz_long_chain", 1)
 		}
-		fuzzOne(c, st, s, kind, pool)
+		fuzzOne(c, st, s, kind, pool, 2)
 	}
-	// one multi-megabyte nesting per run (first case only): the parser is recursive
+	// extreme nesting (first case of a run only): the parser is recursive, and a Go stack overflow is a
+	// fatal error that no recover() can catch. With the default 1 GB stack limit the unchanged tree
+	// dies at about 1.6 million nested parentheses (a 3 MB condition, verified by hand, ~70 s); to keep
+	// the check fast the limit of this child process is lowered to 16 MB while these inputs run, which
+	// moves the overflow to ~25 000 levels. A parser that bounds its nesting depth rejects them at once.
 	if c.Idx == 0 {
+		old := debug.SetMaxStack(16 << 20)
 		for _, open := range []string{"(", "!("} {
-			depth := 3_000_000
+			depth := 100_000
 			s := strings.Repeat(open, depth) + "dport = 80" + strings.Repeat(")", depth)
 			c.Count("fuzz_extreme_nesting", 1)
-			fuzzOne(c, st, s, "extreme_nesting", pool)
+			fuzzOne(c, st, s, "extreme_nesting", pool, 1)
 		}
+		debug.SetMaxStack(old)
 	}
 }
 
 func mustAddr(s string) netip.Addr { return netip.MustParseAddr(s) }
 
-func fuzzOne(c *fw.Case, st *state, s, kind string, pool []gen.Flow) {
+func fuzzOne(c *fw.Case, st *state, s, kind string, pool []gen.Flow, reps int) {
 	c.Count("fuzz_inputs", 1)
 	c.Count("fuzz_kind_"+kind, 1)
 	c.Nontrivial("fuzz:" + s)
 	c.Note("Prepare(%s) [%s]", show(s), kind)
-	o := prepareN(c, s, 2)
+	o := prepareN(c, s, reps, false)
 	if o.panicMsg != "" {
 		st.violate("prepare_panic|"+condx.PanicFrame(o.panicMsg), "Prepare(%s) panicked: %s", show(s), o.panicMsg)
 		return
 	}
 	if o.unstable != "" {
-		st.violate("prepare_unstable|"+kind, "repeated Prepare(%s) disagree: %s", show(s), o.unstable)
-		return
+		// not a violation: the property allows either outcome for arbitrary text
+		c.Count("fuzz_outcome_depends_on_rewrite_order", 1)
 	}
 	if !o.accepted {
 		c.Count("fuzz_rejected", 1)
@@ -736,14 +776,14 @@ func fuzzOne(c *fw.Case, st *state, s, kind string, pool []gen.Flow) {
 		return
 	}
 	// canonicalising again changes nothing
-	o2 := prepareN(c, o.canonical, 2)
+	o2 := prepareN(c, o.canonical, 2, true)
 	c.Count("canonical_idempotence_checked", 1)
 	switch {
 	case o2.panicMsg != "":
 		st.violate("prepare_panic|"+condx.PanicFrame(o2.panicMsg), "Prepare(canonical %s) panicked: %s", show(o.canonical), o2.panicMsg)
 	case !o2.accepted:
 		st.violate("canonical_not_idempotent|"+kind, "canonical form %s of accepted input %s is rejected when prepared again: %v", show(o.canonical), show(s), o2.err)
-	case o2.canonical != o.canonical || o2.unstable != "":
+	case o2.canonical != o.canonical || len(o2.others) > 0:
 		st.violate("canonical_not_idempotent|"+kind, "canonical form %s of accepted input %s becomes %s when prepared again %s", show(o.canonical), show(s), show(o2.canonical), o2.unstable)
 	}
 	if pm1 != "" || err1 != nil {
